@@ -254,6 +254,9 @@ func (d *Decoder) unmarshal(val reflect.Value, tagType byte) error {
 		if err != nil {
 			return err
 		}
+		if aryLen < 0 {
+			return errors.New("int array len less than 0")
+		}
 		vt := val.Type() // receiver must be []int or []int32
 		if vt.Kind() == reflect.Interface {
 			vt = reflect.TypeOf([]int32{}) // pass
@@ -284,6 +287,9 @@ func (d *Decoder) unmarshal(val reflect.Value, tagType byte) error {
 		aryLen, err := d.readInt32()
 		if err != nil {
 			return err
+		}
+		if aryLen < 0 {
+			return errors.New("long array len less than 0")
 		}
 		vt := val.Type() // receiver must be []int or []int64
 		if vt.Kind() == reflect.Interface {
